@@ -67,8 +67,14 @@ def variants(site):
         out.append((False, dict(first_transformer_cap=0, third_fourth_transformer_cap=150)))
         out.append((True, dict(first_transformer_cap=45, third_fourth_transformer_cap=0.0)))
         out.append((False, dict(first_transformer_cap=45, third_fourth_transformer_cap=1e9)))
+        # two independent parameters taking the SAME value (int/float spellings included)
+        out.append((False, dict(first_transformer_cap=45, third_fourth_transformer_cap=45)))
+        out.append((True, dict(first_transformer_cap=150.0, third_fourth_transformer_cap=150)))
     if site == "office001":
         out.append((False, dict(transformer_cap=0)))
+        out.append((True, dict(transformer_cap=120, voltage=120)))
+    if site == "caltech":
+        out.append((True, dict(transformer_cap=208, voltage=208)))
     # every public constructor alias of the site (documented backward-compatible names) builds the same
     # site for the same arguments
     for alias in ALIASES.get(site, []):
